@@ -160,6 +160,10 @@ type V struct {
 	Keys   []string // map keys in insertion order
 	Ent    map[string]*V
 	Nil    bool // nil (as opposed to empty) bytes / array / map
+	// Null: encode this value as an explicit JSON null (reference encoders only).
+	Null bool
+	// Bad: encode a token of the wrong type at this position (reference encoders only).
+	Bad bool
 	// Dev labels the single deviation from the base value this V was built with (alphabets).
 	Dev string
 }
